@@ -58,12 +58,26 @@ Definition check_agent (a : agent float) (ob : agent_obs) : bool :=
   && all2 (fun (o : optim float) (w : float * list float) =>
                  feqb (o_wlr o) (fst w) && list_eqb feqb (o_groups o) (snd w)) (a_opts a) opts.
 
-Fixpoint check_trace (pop : list (agent float)) (ops : list (pop_op float)) (obs : list (list agent_obs)) : bool :=
+(* optimizer steps recorded while the op ran (learn): (individual, index of the registered optimizer,
+   lr of its param groups at the moment of the step) — the optimizers the agent really steps must be
+   the registered ones and run with the model's learning rates *)
+Definition stepped := (nat * nat * list float)%type.
+Definition check_stepped (pop : list (agent float)) (st : stepped) : bool :=
+  let '(i, j, lrs) := st in
+  match nth_error pop i with
+  | Some a => match nth_error (a_opts a) j with
+              | Some o => list_eqb feqb (o_groups o) lrs
+              | None => false end
+  | None => false
+  end.
+
+Fixpoint check_trace (pop : list (agent float)) (ops : list (pop_op float))
+         (obs : list (list agent_obs * list stepped)) : bool :=
   match ops, obs with
   | [], [] => true
-  | o :: ops', ob :: obs' =>
+  | o :: ops', (ob, st) :: obs' =>
       let pop' := pop_step FOps pop o in
-      all2 check_agent pop' ob && check_trace pop' ops' obs'
+      all2 check_agent pop' ob && forallb (check_stepped pop') st && check_trace pop' ops' obs'
   | _, _ => false
   end.
 
@@ -81,6 +95,13 @@ Definition fresh_cacheb (a : agent float) : bool :=
   forallb (fun h : hpent float => match hp_cache h with None => true | Some _ => false end) (a_hps a).
 
 Definition check_pop (pop0 : list (agent float)) (ops : list (pop_op float)) (obs0 : list agent_obs)
-           (obs : list (list agent_obs)) : bool :=
+           (obs : list (list agent_obs * list stepped)) : bool :=
   forallb wf_agent pop0 && forallb fresh_cacheb pop0 && forallb coherentb pop0
   && all2 check_agent pop0 obs0 && check_trace pop0 ops obs.
+
+(* _registry_init: construction is rejected exactly when a configured name is not an attribute.
+   attrs = configured names that exist on an agent of that class; cfg = configured names in order *)
+Definition check_init (attrs cfg : list name) (raised : bool) : bool :=
+  Bool.eqb (registry_init_ok (map (fun n => (n, 0%float)) attrs)
+                             (map (fun n => Build_hpent n (Build_param 0%float 0%float 0%float 0%float false) None) cfg))
+           (negb raised).
